@@ -139,8 +139,12 @@ def mu_boundary_corr(rep, rng, dev, tier, numpy_scalars=False):
                 movers = rng.sample(range(nt), 2)
             vec = list(prev)
             for j in movers[:-1]:
-                vec[j] = rng.choice([1.0, 2.5, 0.3, -0.7, 0.0, 1e-3])
-            vec[movers[-1]] = -(sum(vec) - vec[movers[-1]])
+                r2 = rng.random()
+                # values over many orders of magnitude, and tiny relative changes of the previous value
+                vec[j] = (prev[j] * (1 + rng.choice([1e-7, -3e-9, 1e-12])) if (r2 < 0.2 and prev[j] != 0)
+                          else rng.choice([1.0, 2.5, 0.3, -0.7, 0.0, 1e-3, 1e-9, -2.5e-10, 3e-13, 4e5]))
+            import math
+            vec[movers[-1]] = -math.fsum(v_ for j_, v_ in enumerate(vec) if j_ != movers[-1])
         script.append(vec)
         prev = vec
 
@@ -171,10 +175,14 @@ def mu_boundary_corr(rep, rng, dev, tier, numpy_scalars=False):
         # oracle (cache_coherent): after ANY call sequence every terminal edge carries the from-scratch density of the
         # latest currents (= I_t / L_t for a balanced assignment), every other boundary edge 0
         want_mb = np.zeros(len(solver.mu_boundary))
-        scale_ = max(abs(float(v)) for v in scaled.values()) + 1e-300
+        tol_mb = np.full(len(solver.mu_boundary), 1e-300)
         for ti in info:
-            want_mb[ti.boundary_edge_indices] = float(scaled[ti.name]) / ti.length
-        if np.max(np.abs(snaps[-1] - want_mb)) > 1e-12 * scale_ / min(ti.length for ti in info) and not oracle_bad:
+            # from-scratch density of cache_coherent: -(sum of the other terminals' currents) / L_t, summed exactly here
+            import math
+            want_mb[ti.boundary_edge_indices] = -math.fsum(float(v) for nm_, v in scaled.items() if nm_ != ti.name) / ti.length
+            # the code forms -(sum of the OTHER currents) / L: rounding is relative to that sum, not to I_t itself
+            tol_mb[ti.boundary_edge_indices] = 16 * 2.3e-16 * sum(abs(float(v)) for v in scaled.values()) / ti.length + 1e-300
+        if np.any(np.abs(snaps[-1] - want_mb) > tol_mb) and not oracle_bad:
             oracle_bad.append(k)
             rep.violation("after a sequence of update_mu_boundary calls a terminal's boundary edges do not carry the requested "
                           "current density of the latest currents (stale change-only cache)",
